@@ -191,7 +191,8 @@ func (s *sharedEntryAttributes) resolve_leafref_key_path(ctx context.Context, ke
 		if err != nil {
 			return err
 		}
-		keys[k].value = tv.GetStringVal()
+		// the key levels of the tree are named by the string form of the key value, whatever its type
+		keys[k].value = utils.TypedValueToString(tv)
 		keys[k].doNotResolve = true
 	}
 	return nil
